@@ -7,7 +7,7 @@ set -u
 J=4; [ "${1:-}" = "-j" ] && { J=$2; shift 2; }
 TIER=${1:-quick}; shift || true
 V=${VERIF_SNAP:-/verif}; S=/tmp/sm; mkdir -p $S
-SEEDS="$*"; [ -z "$SEEDS" ] && SEEDS=$(ls $V/seeded)
+SEEDS="$*"; [ -z "$SEEDS" ] && SEEDS=$(cd $V/seeded && ls -d */ | tr -d /)
 one() {
   id=$1; P=${id%%-*}; D=$S/$id
   rm -rf $D; mkdir -p $D
